@@ -17,18 +17,7 @@ open Upnp PyDict Upnp.C09
 theorem status_spec (h : NHeaders) :
     runLadder h Gen.C10Notify.notifyLadder =
       (if specStatus h = 200 then none else some (.status (specStatus h)))
-    ∧ Gen.C10Notify.backlogStatus = 200 ∧ Gen.C10Notify.doneStatus = 200 := by
-  refine ⟨?_, by decide, by decide⟩
-  obtain ⟨nt, nts, sid⟩ := h
-  cases nt with
-  | none => cases nts <;> cases sid <;> simp [runLadder, evalOr, evalCond, hget, specStatus, Gen.C10Notify.notifyLadder, kNT, kNTS, kSID]
-  | some v =>
-    cases nts with
-    | none => cases sid <;> simp [runLadder, evalOr, evalCond, hget, specStatus, Gen.C10Notify.notifyLadder, kNT, kNTS, kSID]
-    | some w =>
-      by_cases h1 : v = ntEvent <;> by_cases h2 : w = ntsPropchange <;> cases sid <;>
-        simp [runLadder, evalOr, evalCond, hget, specStatus, Gen.C10Notify.notifyLadder, kNT, kNTS, kSID, h1, h2] <;>
-        simp_all [ntEvent, ntsPropchange]
+    ∧ Gen.C10Notify.backlogStatus = 200 ∧ Gen.C10Notify.doneStatus = 200 := ladder_spec h
 
 /-- the coercer kinds of the data types the correspondence runs use, as extracted from const.py: the
     integer types go through `int`, `string` through `str`, `boolean` through `s.lower() in ["1","true","yes"]`;
@@ -171,20 +160,6 @@ theorem frame (h : Handler) (n : Notify) (tick : Nat) :
       | some s =>
         simp only [hs, Option.bind_some] at hnone
         simp only [hnone]
-
-/-- the variable of another index is literally the same after `modifyAt` -/
-theorem frame_other {α : Type} (l : List α) (i j : Nat) (f : α → α) (h : i ≠ j) :
-    (modifyAt l i f)[j]? = l[j]? := by
-  induction l generalizing i j with
-  | nil => cases i <;> rfl
-  | cons a r ih =>
-    cases i with
-    | zero => cases j with
-      | zero => exact absurd rfl h
-      | succ j' => rfl
-    | succ i' => cases j with
-      | zero => rfl
-      | succ j' => simpa [modifyAt] using ih i' j' (by omega)
 
 /-! ### non-vacuity -/
 
